@@ -33,6 +33,10 @@ class LadderNetworkMaker:
         if N1m != N2m:
             return parts
 
+        if N1p == N1m or N2p == N2m:
+            # Shorted port (for example, a killed voltage source).
+            return parts
+
         cg = self.cg
         node = N1p
         initial = True
